@@ -17678,7 +17678,8 @@ class HFSM2_EMPTY_BASES InstanceT<
 							>
 						  , TApex
 						> final
-	: public			RC_<
+	: public			RNGT<TUtility>
+	, public			RC_<
 							G_<
 								NFeatureTag
 							  , TContext
@@ -17693,7 +17694,6 @@ class HFSM2_EMPTY_BASES InstanceT<
 							>
 						  , TApex
 						>
-	, public			RNGT<TUtility>
 {
 	using Base =		RC_<
 							G_<
@@ -17723,10 +17723,10 @@ public:
 public:
 	HFSM2_CONSTEXPR(14)	explicit InstanceT(Context& context
 										 HFSM2_IF_LOG_INTERFACE(, Logger* const logger = nullptr))	noexcept
-		: Base{context
+		: RNGT<TUtility>{0}
+		, Base{context
 			 , static_cast<RNGT<TUtility>&>(*this)
 			 HFSM2_IF_LOG_INTERFACE(, logger)}
-		, RNGT<TUtility>{0}
 	{}
 };
 
@@ -17762,7 +17762,8 @@ class HFSM2_EMPTY_BASES InstanceT<
 							>
 						  , TApex
 						> final
-	: public			RC_<
+	: public RNGT<TUtility>
+	, public			RC_<
 							G_<
 								NFeatureTag
 							  , EmptyContext
@@ -17777,7 +17778,6 @@ class HFSM2_EMPTY_BASES InstanceT<
 							>
 						  , TApex
 						>
-	, public RNGT<TUtility>
 {
 	using Base =		RC_<
 							G_<
@@ -17804,9 +17804,9 @@ public:
 
 public:
 	HFSM2_CONSTEXPR(14)	explicit InstanceT(HFSM2_IF_LOG_INTERFACE(Logger* const logger = nullptr))	noexcept
-		: Base{static_cast<RNGT<TUtility>&>(*this)
+		: RNGT<TUtility>{0}
+		, Base{static_cast<RNGT<TUtility>&>(*this)
 			 HFSM2_IF_LOG_INTERFACE(, logger)}
-		, RNGT<TUtility>{0}
 	{}
 };
 
